@@ -127,6 +127,8 @@ func Ops() []Op {
 		readOp("read-ssa", "ssa", docData("ssa-small")),
 		readOp("read-stl-open", "stl", stlDoc("0", "éàü Ω")),
 		readOp("read-stl-teletext", "stl", stlDoc("1", "ñöç x")),
+		readOp("read-ts-french", "ts", docData("ts-french-3")),
+		readOp("read-ts-german", "ts", docData("ts-german-serial-2")),
 		writeOp("srt", ""), writeOp("vtt", ""), writeOp("ttml", ""), writeOp("ssa", ""), writeOp("stl", ""),
 		writeOp("srt", "#2"), writeOp("stl", "#2"),
 		transformOp("add", func(s *astisub.Subtitles) { s.Add(-2 * time.Second) }),
